@@ -2,4 +2,4 @@ From Coq Require Import NArith ZArith.
 From GoMC Require Import Model.C19.
 Require Import ExtrOcamlBasic.
 Extraction "c19_model.ml" id_table gate_json_reason enc_fields layout seen_ok join_init ping_init grun_sched grun_greedy
-  gterminalb prun register events_init handle_game reg_write bot_feed srv_feed bot_join_init srv_init Z.of_N N.of_nat.
+  gterminalb prun register events_init handle_game reg_write cut_outcome_bot cut_outcome_srv Z.of_N N.of_nat.
